@@ -112,9 +112,15 @@ func (pcks PublicKeySwitchProtocol) GenShare(sk *rlwe.SecretKey, pk *rlwe.Public
 //
 // [ctx[0] + sum(s_i * ctx[0] + u_i * pk[0] + e_0i), sum(u_i * pk[1] + e_1i)]
 func (pcks PublicKeySwitchProtocol) AggregateShares(share1, share2 PublicKeySwitchShare, shareOut *PublicKeySwitchShare) (err error) {
-	levelQ1, levelQ2 := share1.Value[0].Level(), share1.Value[1].Level()
-	if levelQ1 != levelQ2 {
-		return fmt.Errorf("cannot AggregateShares: the two shares are at different levelQ")
+	levelQ1, levelQ2 := share1.Value[0].Level(), share2.Value[0].Level()
+	if levelQ1 != levelQ2 || levelQ1 != shareOut.Value[0].Level() {
+		return fmt.Errorf("cannot AggregateShares: the shares are at different levelQ")
+	}
+
+	for _, share := range []*PublicKeySwitchShare{&share1, &share2, shareOut} {
+		if share.Value[0].Level() != share.Value[1].Level() {
+			return fmt.Errorf("cannot AggregateShares: the components of a share are at different levelQ")
+		}
 	}
 	pcks.params.RingQ().AtLevel(levelQ1).Add(share1.Value[0], share2.Value[0], shareOut.Value[0])
 	pcks.params.RingQ().AtLevel(levelQ1).Add(share1.Value[1], share2.Value[1], shareOut.Value[1])
